@@ -173,3 +173,16 @@ func IDs() []string {
 	sort.Strings(ids)
 	return ids
 }
+
+// Helpers are small entry points run in a fresh child process of the same binary (`vcheck -helper <name> <file>`).
+var helpers = map[string]func(argFile string){}
+
+func RegisterHelper(name string, fn func(argFile string)) { helpers[name] = fn }
+
+func RunHelper(name, argFile string) {
+	fn, ok := helpers[name]
+	if !ok {
+		panic("unknown helper " + name)
+	}
+	fn(argFile)
+}
